@@ -6,6 +6,7 @@ package main
 // re-encode oracle.
 
 import (
+	"bytes"
 	"errors"
 	"fmt"
 	"io"
@@ -60,6 +61,11 @@ type NNested struct {
 	W NMapAny
 }
 
+type NTime struct {
+	T time.Time
+	N int8
+}
+
 // custom marshalers
 type NMarsh struct {
 	V []byte
@@ -97,7 +103,7 @@ var errCustom = errors.New("c16 custom registered error")
 func registerTypes() {
 	for _, t := range []any{
 		NInt(0), NStr(""), NBool(false), NF64(0), NSlice{}, NStrs{}, NAnys{}, NMap{}, NMapAny{}, NArr{}, NArr0{}, NEmpty{}, NEmpties{},
-		NStruct{}, NNested{}, NMarsh{}, NBin{},
+		NStruct{}, NNested{}, NMarsh{}, NBin{}, NTime{},
 	} {
 		if err := edf.RegisterTypeOf(t); err != nil && err != gen.ErrTaken {
 			panic(fmt.Sprintf("register %T: %v", t, err))
@@ -164,6 +170,8 @@ func validValues() []any {
 		G: int16(7), H: errors.New("plain error"), I: pid, J: tm, K: []any{"x", 1, nil, 2.5, true}, L: map[gen.Atom]float64{"c16atom": 1.5}, M: "c16atom"}
 	ns2 := NStruct{G: []string{"in", "any"}, H: gen.ErrTimeout, K: []any{}, M: "uncached_atom"}
 	long := strings.Repeat("abcdefghij", 26)
+	tmsec := time.Date(2001, 2, 3, 4, 5, 6, 7, time.FixedZone("x", 3600+17))     // zone offset with seconds: 16 byte binary form (version 2)
+	tmlmt := time.Date(1880, 1, 1, 12, 0, 0, 0, time.FixedZone("LMT", 19*60+32)) // local mean time style (Amsterdam +0:19:32)
 	vals := []any{
 		true, false,
 		int(-1), int(math.MaxInt64), int8(-128), int16(-300), int32(1 << 30), int64(math.MinInt64),
@@ -173,7 +181,7 @@ func validValues() []any {
 		[]byte{}, []byte{0, 255, 1, 254}, []byte(long[:40]),
 		gen.Atom(""), gen.Atom("c16atom"), gen.Atom("some_uncached_atom"), gen.Atom(strings.Repeat("a", 255)),
 		pid, pid2, gen.ProcessID{Name: "canary", Node: "victim@localhost"}, ref, alias, gen.Event{Name: "ev", Node: "c16atom"},
-		tm, tmz, time.Time{},
+		tm, tmz, time.Time{}, tmsec, tmlmt, []time.Time{tmsec, tm, tmlmt}, []any{tmsec, 1}, map[string]time.Time{"k": tmlmt}, NTime{T: tmsec, N: 5},
 		errors.New("plain error"), gen.ErrTimeout, gen.TerminateReasonNormal, errCustom, fmt.Errorf("wrapped: %w", gen.ErrTaken),
 		[]int{1, 2, 3}, []int{}, []string{"a", "", "ccc"}, []any{1, "two", 3.0, nil, []any{int8(4), []byte{5}}, map[string]any{"k": uint16(6)}},
 		[]float64{math.NaN(), 1}, [][]uint8{{1}, {}, {2, 3}}, []error{errors.New("e1"), nil, gen.ErrUnknown},
@@ -231,7 +239,77 @@ func buildCorpus(o optset) []citem {
 		}
 		lib.ReleaseBuffer(b)
 	}
+	// small hand-built encodings join the corpus (appended: the indices of the other items do not move)
+	for i, h := range handEncodings() {
+		if len(h.enc) <= 64 {
+			items = append(items, citem{idx: 1000 + i, desc: "hand:" + h.name, enc: h.enc})
+		}
+	}
 	return items
+}
+
+// hand-built valid encodings --------------------------------------------------------
+//
+// Built by a reference encoder of the harness, NOT by the encoder under test: a defect of the encoder cannot
+// bend them. They cover every length variant an encoding can take: time.Time in its 15 byte (version 1) and
+// 16 byte (version 2, zone offset with seconds) binary form as a plain value, in []time.Time, in []any, as a
+// map value and as a struct field; strings, binaries, atoms and error texts at the thresholds of their 1/2/4
+// byte length fields. Each is decoded once with all oracles (class "valid"); the small ones also join the
+// corpus that the mutation classes work on.
+
+type handEnc struct {
+	name string
+	enc  []byte
+}
+
+func refTime(t time.Time) []byte {
+	bin, _ := t.MarshalBinary()
+	return append([]byte{byte(len(bin))}, bin...)
+}
+
+func handEncodings() []handEnc {
+	var out []handEnc
+	add := func(name string, parts ...[]byte) { out = append(out, handEnc{name, cat(parts...)}) }
+	times := []struct {
+		n string
+		t time.Time
+	}{
+		{"utc", time.Date(2024, 5, 17, 13, 14, 15, 123456789, time.UTC)},
+		{"zone-minutes", time.Date(1999, 12, 31, 23, 59, 59, 0, time.FixedZone("X", 3*3600+1800))},
+		{"zone-seconds", time.Date(2001, 2, 3, 4, 5, 6, 7, time.FixedZone("x", 3600+17))},
+		{"zone-lmt", time.Date(1880, 1, 1, 12, 0, 0, 0, time.FixedZone("LMT", 19*60+32))},
+		{"zone-west", time.Date(1970, 1, 1, 0, 0, 0, 0, time.FixedZone("W", -(9*3600+30*60)))},
+		{"zero", time.Time{}},
+	}
+	for _, x := range times {
+		rt := refTime(x.t)
+		add("time-"+x.n+"/plain", []byte{175}, rt)
+		add("time-"+x.n+"/slice", []byte{130, 0, 2, 157, 175, 157}, be32(2), rt, rt)
+		add("time-"+x.n+"/any-slice", []byte{130, 0, 2, 157, 132, 157}, be32(2), []byte{175}, rt, []byte{150, 0, 0, 0, 0, 0, 0, 0, 1})
+		add("time-"+x.n+"/map-value", []byte{130, 0, 3, 159, 141, 175, 159}, be32(1), []byte{0, 1, 'k'}, rt)
+		add("time-"+x.n+"/struct-field", regName("#main/NTime"), rt, []byte{5})
+		add("time-"+x.n+"/array", []byte{130, 0, 6, 158, 0, 0, 0, 1, 175}, rt)
+	}
+	rep := func(n int) []byte { return bytes.Repeat([]byte{'s'}, n) }
+	be16 := func(n int) []byte { return []byte{byte(n >> 8), byte(n)} }
+	for _, n := range []int{0, 1, 255, 256, 65534, 65535} {
+		add(fmt.Sprintf("string-%d", n), []byte{141}, be16(n), rep(n))
+	}
+	for _, n := range []int{0, 1, 255, 256, 65535, 65536, 70000} {
+		add(fmt.Sprintf("binary-%d", n), []byte{142}, be32(uint32(n)), rep(n))
+	}
+	for _, n := range []int{0, 1, 254, 255} {
+		add(fmt.Sprintf("atom-%d", n), []byte{140}, be16(n), rep(n))
+	}
+	for _, n := range []int{1, 255, 256, 32766, 32767} {
+		add(fmt.Sprintf("error-%d", n), []byte{156}, be16(n), rep(n))
+	}
+	// the same thresholds inside containers (no type tag per item)
+	add("strings-in-slice", []byte{130, 0, 2, 157, 141, 157}, be32(3), be16(0), be16(255), rep(255), be16(256), rep(256))
+	add("binaries-in-any-slice", []byte{130, 0, 2, 157, 132, 157}, be32(2), []byte{142}, be32(256), rep(256), []byte{142}, be32(0))
+	add("marshaler-256", regName("#main/NMarsh"), be32(4+256), []byte{0, 0, 0, 9}, rep(256))
+	add("binmarshaler-0", regName("#main/NBin"), be32(0))
+	return out
 }
 
 // structural equality -----------------------------------------------------------
@@ -276,6 +354,10 @@ func eqv(a, b reflect.Value, path string) (bool, string) {
 		ta, tb := a.Interface().(time.Time), b.Interface().(time.Time)
 		_, oa := ta.Zone()
 		_, ob := tb.Zone()
+		// a time that the standard library itself does not round-trip (see goTimeRoundTrips): only the instant counts
+		if !goTimeRoundTrips(ta) {
+			ob = oa
+		}
 		if !ta.Equal(tb) || oa != ob {
 			return false, fmt.Sprintf("%s: time %v vs %v", path, ta, tb)
 		}
@@ -365,6 +447,64 @@ func eqv(a, b reflect.Value, path string) (bool, string) {
 		return true, ""
 	}
 	return false, path + ": unsupported kind " + a.Kind().String()
+}
+
+// goTimeRoundTrips: the Go standard library itself can marshal this time and gets the same time back. It cannot
+// for some zone offsets that UnmarshalBinary accepts (negative offsets with a seconds part: seconds are written
+// signed and read unsigned; offsets in -119..-61 s collide with the UTC marker; minutes near the int16 limits).
+func goTimeRoundTrips(t time.Time) bool {
+	bin, err := t.MarshalBinary()
+	if err != nil {
+		return false
+	}
+	var t2 time.Time
+	if err := t2.UnmarshalBinary(bin); err != nil {
+		return false
+	}
+	_, o1 := t.Zone()
+	_, o2 := t2.Zone()
+	return t.Equal(t2) && o1 == o2
+}
+
+// hasQuirkTime: the value holds a time.Time that the standard library itself does not round-trip; the
+// re-encode oracle says nothing about the code under test for such values.
+func hasQuirkTime(v reflect.Value, depth int) bool {
+	if !v.IsValid() || depth > 16 {
+		return false
+	}
+	if v.Type() == timeType {
+		return !goTimeRoundTrips(v.Interface().(time.Time))
+	}
+	switch v.Kind() {
+	case reflect.Interface, reflect.Pointer:
+		if v.IsNil() {
+			return false
+		}
+		return hasQuirkTime(v.Elem(), depth+1)
+	case reflect.Slice, reflect.Array:
+		if v.Type().Elem().Size() == 0 {
+			return false
+		}
+		for i := 0; i < v.Len() && i < 4096; i++ {
+			if hasQuirkTime(v.Index(i), depth+1) {
+				return true
+			}
+		}
+	case reflect.Map:
+		it := v.MapRange()
+		for n := 0; it.Next() && n < 4096; n++ {
+			if hasQuirkTime(it.Key(), depth+1) || hasQuirkTime(it.Value(), depth+1) {
+				return true
+			}
+		}
+	case reflect.Struct:
+		for i := 0; i < v.NumField(); i++ {
+			if v.Type().Field(i).IsExported() && hasQuirkTime(v.Field(i), depth+1) {
+				return true
+			}
+		}
+	}
+	return false
 }
 
 func trunc(s string, n int) string {
